@@ -13,6 +13,7 @@ mod determinism;
 mod fsplan;
 mod lsp;
 mod session;
+mod sysfault;
 mod watch;
 mod world;
 
@@ -116,6 +117,16 @@ fn session_report(o: session::Outcome) -> RunReport {
 /// fault kind x {same session, restart}.
 fn run_session_enum(base: &session::SessionCase, tag: u64) -> RunReport {
     use session::Step;
+    use sysfault::{SysFault, SysKind};
+    // the base history is fault free: legal-but-unusual OS behaviour is stripped as well, so
+    // that the clean run numbers exactly the calls the faulted runs will see
+    let mut base = base.clone();
+    for s in base.steps.iter_mut() {
+        if let Step::Compile { sys, .. } = s {
+            *sys = None;
+        }
+    }
+    let base = &base;
     let clean = session::run(base, tag);
     let mut rep = RunReport { sub_runs: 1, ..Default::default() };
     let mut counters: BTreeMap<String, u64> = BTreeMap::new();
@@ -125,35 +136,83 @@ fn run_session_enum(base: &session::SessionCase, tag: u64) -> RunReport {
         rep.violations = clean.violations;
         return rep;
     }
+    let sys_indices_per_compile = simcore::env_u64("SIM_ENUM_SYS_INDICES", 10) as usize;
     let compile_positions: Vec<usize> = base.steps.iter().enumerate().filter(|(_, s)| matches!(s, Step::Compile { .. })).map(|(i, _)| i).collect();
+    // (position of the compile, the faulted compile step, restart afterwards, label)
+    let mut plan: Vec<(usize, Step, bool, String)> = Vec::new();
     for (k, pos) in compile_positions.iter().enumerate() {
         let n_ops = clean.op_counts.get(k).copied().unwrap_or(0);
         for op_index in 0..n_ops {
             for kind in cx::ALL_FAULT_KINDS {
                 for restart_after in [false, true] {
-                    let mut c = base.clone();
-                    c.steps[*pos] = Step::Compile { fault: Some((op_index, kind)) };
-                    if restart_after {
-                        c.steps.insert(pos + 1, Step::Restart { garbage: vec![] });
-                    }
-                    c.steps.push(Step::Compile { fault: None });
-                    let o = session::run(&c, tag);
-                    rep.sub_runs += 1;
-                    *counters.entry("enumerated_fault_points".into()).or_insert(0) += 1;
-                    if o.faults_fired > 0 {
-                        *counters.entry(format!("fault.{}", kind.name())).or_insert(0) += 1;
-                    }
-                    *counters.entry("recovered_after_fault".into()).or_insert(0) += o.recovered_after_fault;
-                    log.extend_from_slice(&simcore::fnv1a(&o.log).to_le_bytes());
-                    if let Some(v) = o.violations.into_iter().next() {
-                        // report the explicit faulted history, not the base
-                        rep.violations.push(Violation { detail: format!("{} [enumerated: compile #{k} op {op_index} {} restart_after={restart_after}] CASE={}", v.detail, kind.name(), serde_json::to_string(&c).unwrap()), ..v });
-                        rep.counters = counters.into_iter().collect();
-                        rep.loghash = simcore::fnv1a(&log);
-                        return rep;
-                    }
+                    plan.push((*pos, Step::Compile { fault: Some((op_index, kind)), sys: None }, restart_after, format!("compile #{k} op {op_index} {} restart_after={restart_after}", kind.name())));
                 }
             }
+        }
+        // the system-call seam: which libc calls did this compile issue below the artifact directory?
+        let calls: Vec<(u32, String)> = clean
+            .sys_logs
+            .get(k)
+            .map(|l| l.lines().filter_map(|line| { let mut it = line.split(' '); let i = it.next()?.parse::<i64>().ok()?; if i < 0 { return None; } Some((i as u32, it.next()?.to_string())) }).collect())
+            .unwrap_or_default();
+        let chosen: Vec<&(u32, String)> = if calls.len() <= sys_indices_per_compile {
+            calls.iter().collect()
+        } else {
+            // always the first and the last calls, and a seeded sample in between
+            let mut rng = simcore::Rng::new(tag ^ (k as u64).wrapping_mul(0x9E37_79B9_7F4A_7C15));
+            let edge = (sys_indices_per_compile / 5).max(1);
+            let mut pick: std::collections::BTreeSet<usize> = (0..edge).chain(calls.len() - edge..calls.len()).collect();
+            while pick.len() < sys_indices_per_compile {
+                pick.insert(rng.below(calls.len() as u64) as usize);
+            }
+            pick.into_iter().map(|i| &calls[i]).collect()
+        };
+        *counters.entry("enumerated_syscalls_available".into()).or_insert(0) += calls.len() as u64;
+        for (at, what) in chosen {
+            for kind in sysfault::FAILING_KINDS {
+                let write_only = matches!(kind, SysKind::Torn(_) | SysKind::TornFreeze);
+                if write_only && what != "write" {
+                    continue;
+                }
+                let restarts: &[bool] = if kind.is_kill() { &[false] } else { &[false, true] };
+                for restart_after in restarts {
+                    plan.push((*pos, Step::Compile { fault: None, sys: Some(SysFault { at: *at, kind, op: None }) }, *restart_after, format!("compile #{k} libc call {at} ({what}) {} restart_after={restart_after}", kind.name())));
+                }
+            }
+        }
+    }
+    for (pos, step, restart_after, label) in plan {
+        let is_sys = matches!(&step, Step::Compile { sys: Some(_), .. });
+        let kind_name = match &step {
+            Step::Compile { fault: Some((_, k)), .. } => k.name(),
+            Step::Compile { sys: Some(f), .. } => f.kind.name(),
+            _ => "none",
+        };
+        let mut c = base.clone();
+        c.steps[pos] = step;
+        if restart_after {
+            c.steps.insert(pos + 1, Step::Restart { garbage: vec![] });
+        }
+        c.steps.push(Step::Compile { fault: None, sys: None });
+        let o = session::run(&c, tag);
+        rep.sub_runs += 1;
+        *counters.entry(if is_sys { "enumerated_syscall_fault_points" } else { "enumerated_fault_points" }.into()).or_insert(0) += 1;
+        if o.faults_fired > 0 {
+            *counters.entry(format!("fault.{kind_name}")).or_insert(0) += 1;
+        }
+        for (k, n) in &o.counters {
+            if k.starts_with("probe.") {
+                *counters.entry(k.clone()).or_insert(0) += n;
+            }
+        }
+        *counters.entry("recovered_after_fault".into()).or_insert(0) += o.recovered_after_fault;
+        log.extend_from_slice(&simcore::fnv1a(&o.log).to_le_bytes());
+        if let Some(v) = o.violations.into_iter().next() {
+            // report the explicit faulted history, not the base
+            rep.violations.push(Violation { detail: format!("{} [enumerated: {label}] CASE={}", v.detail, serde_json::to_string(&c).unwrap()), ..v });
+            rep.counters = counters.into_iter().collect();
+            rep.loghash = simcore::fnv1a(&log);
+            return rep;
         }
     }
     rep.nontrivial = rep.sub_runs > 1;
